@@ -2603,11 +2603,17 @@ void Analyser::AnalyserImpl::analyseModel(const ModelPtr &model)
         for (const auto &externalVariable : mExternalVariables) {
             auto variable = externalVariable->variable();
 
+            if (variable == nullptr) {
+                // An external variable without a variable cannot refer to anything in the model.
+                continue;
+            }
+
             if (owningModel(variable) != model) {
                 auto issue = Issue::IssueImpl::create();
+                auto component = owningComponent(variable);
 
                 issue->mPimpl->setDescription("Variable '" + variable->name()
-                                              + "' in component '" + owningComponent(variable)->name()
+                                              + "' in component '" + ((component != nullptr) ? component->name() : std::string())
                                               + "' is marked as an external variable, but it belongs to a different model and will therefore be ignored.");
                 issue->mPimpl->setLevel(Issue::Level::MESSAGE);
                 issue->mPimpl->setReferenceRule(Issue::ReferenceRule::ANALYSER_EXTERNAL_VARIABLE_DIFFERENT_MODEL);
@@ -3311,9 +3317,11 @@ AnalyserExternalVariablePtrs::const_iterator Analyser::AnalyserImpl::findExterna
 {
     return std::find_if(mExternalVariables.begin(), mExternalVariables.end(), [=](const auto &ev) {
         auto variable = ev->variable();
+        auto component = (variable != nullptr) ? owningComponent(variable) : nullptr;
 
-        return (owningModel(variable) == model)
-               && (owningComponent(variable)->name() == componentName)
+        return (component != nullptr)
+               && (owningModel(variable) == model)
+               && (component->name() == componentName)
                && (variable->name() == variableName);
     });
 }
@@ -3404,6 +3412,10 @@ void Analyser::analyseModel(const ModelPtr &model)
 
 bool Analyser::addExternalVariable(const AnalyserExternalVariablePtr &externalVariable)
 {
+    if (externalVariable == nullptr) {
+        return false;
+    }
+
     if (std::find(pFunc()->mExternalVariables.begin(), pFunc()->mExternalVariables.end(), externalVariable) == pFunc()->mExternalVariables.end()) {
         pFunc()->mExternalVariables.push_back(externalVariable);
 
